@@ -19,6 +19,8 @@ pub struct Ctx {
 	/// per-type sample budget multiplier
 	pub scale: usize,
 	pub type_filter: Option<String>,
+	pub type_exact: Option<String>,
+	pub listing: bool,
 	pub per_type: std::collections::BTreeMap<String, u64>,
 	pub stats: std::collections::BTreeMap<String, u64>,
 }
@@ -33,9 +35,15 @@ impl Ctx {
 		*self.stats.entry(k.to_string()).or_insert(0) += 1;
 	}
 	pub fn wants(&self, tn: &str) -> bool {
-		match &self.type_filter {
-			None => true,
-			Some(f) => tn.contains(f.as_str()),
+		if self.listing {
+			// `--list`: print the unit names of this property's corpus instead of running them
+			println!("{}", tn);
+			return false;
+		}
+		match (&self.type_filter, &self.type_exact) {
+			(_, Some(f)) => tn == f.as_str(),
+			(None, None) => true,
+			(Some(f), None) => tn.contains(f.as_str()),
 		}
 	}
 	pub fn rng_for(&self, tn: &str, salt: u64) -> G {
